@@ -240,7 +240,8 @@ Theorem C10_registered_group_kept : forall l pre s r post k g,
   t_cur post = Some k /\ exists g', nth_error (t_objs post) k = Some g'.
 Proof.
   intros l pre s r post k g Hin Hc Hn Hm.
-  pose proof (tstep_keeps_members pre s k g Hc Hn Hm) as H.
+  pose proof (tstep_keeps_members true pre s k g Hc Hn Hm) as H.
+  change (tstep_gen true pre s) with (tstep pre s) in H.
   rewrite (texec_step _ _ _ _ _ _ Hin) in H. exact H.
 Qed.
 Print Assumptions C10_registered_group_kept.
@@ -253,35 +254,39 @@ Theorem C10_every_object_is_a_history : forall l k g,
 Proof. exact objects_are_histories. Qed.
 Print Assumptions C10_every_object_is_a_history.
 
-(* If every entry step runs on the object that is registered at that moment,
-   members exist only in the registered object, in every reachable table:
-   then "the members of the group named so" are the members of one object
-   and the rules hold for the name. *)
-Theorem C10_rules_hold_for_the_name : forall l,
-  admissions_on_current tinit l ->
-  forall j g, nth_error (t_objs (trun tinit l)) j = Some g ->
-              t_cur (trun tinit l) <> Some j -> g_clients g = [].
-Proof. intros l H. exact (proj2 (proj1 (members_only_in_registered l H))). Qed.
+(* An entry step never runs on an object that is not registered (AddClient
+   finds it marked deleted and looks the name up again) ... *)
+Theorem C10_no_entry_into_dropped_object : forall t k now j,
+  t_cur t <> Some k -> tstep t (TOn k (SAddClient now j)) = (t, TRetry).
+Proof. exact no_entry_into_dropped_object. Qed.
+Print Assumptions C10_no_entry_into_dropped_object.
+
+(* ... hence, in every reachable table of every schedule, members exist only
+   in the registered object: "the members of the group named so" are the
+   members of ONE object, and lock, capacity, window, autolock/autokick and
+   the uniqueness of ids hold for the name. *)
+Theorem C10_rules_hold_for_the_name : forall l j g,
+  nth_error (t_objs (trun tinit l)) j = Some g ->
+  t_cur (trun tinit l) <> Some j -> g_clients g = [].
+Proof. intros l. exact (proj2 (proj1 (members_only_in_registered l))). Qed.
 Print Assumptions C10_rules_hold_for_the_name.
 
-(* The code does not guarantee that hypothesis: AddClient looks the object up
-   (Add) and enters it in two separate critical sections.  Schedule: U's Add
-   returns the (empty) object 0; the description becomes unreadable and
-   another Add drops object 0; U is accepted into the unregistered object 0;
-   the description is restored; V's Add creates object 1 and V is accepted
-   with the same id although max-clients is 1.  (Executed on the real code:
-   see the report of the `group` driver's builder; the same happens with
-   Delete(name) of an idle group in place of the failing Add.) *)
-Theorem C10_name_level_orphan_refuted :
-  let t := trun tinit orphan_schedule in
-  t_cur t = Some 1%nat /\
-  map (fun g => ids (g_clients g)) (t_objs t) = [[[117]]; [[117]]] /\
-  map (fun g => d_max_clients (g_desc g)) (t_objs t) = [1; 1] /\
-  map (fun x => match snd (fst x) with TOut o => Some (o_res o) | _ => None end)
-      (texec tinit orphan_schedule) =
-    [None; None; None; None; Some RAccepted; None; None; Some RAccepted].
-Proof. exact orphan_witness. Qed.
-Print Assumptions C10_name_level_orphan_refuted.
+(* Regression of F30 (fixed by 35083b1).  Schedule: U's Add returns the
+   (empty) object 0; the description becomes unreadable and another Add drops
+   object 0; U's entry step; the description is restored; V's Add creates
+   object 1 and V enters with the same id, max-clients 1.  With the code
+   before the fix both are members, of two objects; now U has to retry. *)
+Example C10_F30_regression :
+  (let t := trun_prefix tinit orphan_schedule in
+   t_cur t = Some 1%nat /\
+   map (fun g => ids (g_clients g)) (t_objs t) = [[[117]]; [[117]]] /\
+   map (fun g => d_max_clients (g_desc g)) (t_objs t) = [1; 1]) /\
+  (let t := trun tinit orphan_schedule in
+   map (fun g => ids (g_clients g)) (t_objs t) = [[]; [[117]]] /\
+   map (fun x => snd (fst x)) (texec tinit orphan_schedule) =
+     [TWritten; TAddOk 0 []; TWritten; TAddErr; TRetry; TWritten; TAddOk 1 [];
+      TOut (mkOut RAccepted [EJoined 2 KJoin; EPush 2 true [117]])]).
+Proof. split; [exact orphan_witness_prefix | exact orphan_schedule_now]. Qed.
 
 (* Non-vacuity of the table theorems: a member joins, the description is
    unreadable during two Adds (the object is kept), is restored, and the next
@@ -295,7 +300,6 @@ Example C10_table_example :
             TWrite (Some d); TAdd; TOn 0 (SAddClient 0 (mkJoiner 2 [118] false false 2));
             TOn 0 (SDelClient [117] 1); TWrite None; TAdd;
             TWrite (Some d); TAdd] in
-  admissions_on_current tinit l /\
   map (fun x => snd (fst x)) (texec tinit l) =
     [TWritten; TAddOk 0 []; TOut (mkOut RAccepted [EJoined 1 KJoin; EPush 1 true [117]]);
      TWritten; TAddErr; TAddErr;
@@ -304,8 +308,7 @@ Example C10_table_example :
      TWritten; TAddOk 1 []] /\
   t_cur (trun tinit l) = Some 1%nat.
 Proof.
-  cbv zeta. split; [|split].
-  - apply on_current_b_sound. vm_compute. reflexivity.
+  cbv zeta. split.
   - vm_compute. reflexivity.
   - vm_compute. reflexivity.
 Qed.
